@@ -36,12 +36,14 @@ THEOREMS = [
     "binom_pmf_sum_one",
     "betabinom_sum_one",
     "mixture_sum_one",
+    "lik_pos",
     "grid_point",
     "cluster_is_product",
     "outlier_terms",
 ]
 BUDGET = {"quick": 58, "thorough": 420}
 SEARCH_BUDGET = 60
+MAX_JOBS = 7  # every worker pays ~5 s of numba compilation; fewer workers cost less CPU in total
 RULE = ("input files with 1..5 mutations x 1..3 samples (major 1..5 >= minor, normal 1..2, depth 0..60 quick / ..400 "
         "thorough, a few at 2000), tumour content and error rate as dyadics or the decimals 1e-3/1e-2/0.2 (the floats "
         "pandas parsed are what the model receives, exactly), both densities, precision in {1,2,40,400,1000,1/2,81/2}, "
